@@ -509,7 +509,8 @@ class Builder:
             self.note('#IF')
             ct, cv, ck = self.e(node[1], cx.deeper())
             a, b = abs(int(node[2])), abs(int(node[3]))
-            text = '#IF' + self.params([(ct, ck)], 1, cx) + '(%d,%d)' % (a, b)
+            o, c = ('()', '[]', '()' if cx.nobrace else '{}', '()')[(a + 2 * b) % 4]      # string parameters may use any of the three bracket pairs
+            text = '#IF' + self.params([(ct, ck)], 1, cx) + '%s%d,%d%s' % (o, a, b, c)
             return text, ((a if cv else b) if live else None), 'atom'
         if tag == 'mapx':
             self.note('#MAP')
@@ -522,7 +523,8 @@ class Builder:
                 if k not in seen:
                     seen.add(k)
                     pairs.append((k, abs(int(v))))
-            text = '#MAP' + self.params([(kt, kk)], 1, cx) + '(' + ','.join([str(dflt)] + ['%d:%d' % p for p in pairs]) + ')'
+            o, c = ('()', '()' if cx.nobrace else '{}', '[]', '()')[(dflt + len(pairs)) % 4]
+            text = '#MAP' + self.params([(kt, kk)], 1, cx) + o + ','.join([str(dflt)] + ['%d:%d' % p for p in pairs]) + c
             return text, (dict(pairs).get(kv, dflt) if live else None), 'atom'
         if tag == 'sumx':
             a = abs(int(node[1])) % 1000
@@ -531,7 +533,8 @@ class Builder:
             if cx.loops >= len(LOOPVARS):
                 return self.e(['num', a, 0], cx)
             self.note('#FOR')
-            text = '(#FOR(%d,%d)(%s,%s,+))' % (a, a + n, var, var)     # expands to "a+...+b": parenthesised
+            o, c = ('()', '()', '()' if cx.nobrace else '{}', '[]')[(a + n) % 4]
+            text = '(#FOR(%d,%d)%s%s,%s,+%s)' % (a, a + n, o, var, var, c)     # expands to "a+...+b": parenthesised
             return text, (sum(range(a, a + n + 1)) if live else None), 'atom'
         if tag == 'callx':
             macros = [m for m in self.scope.macros.values() if m.pure and not m.snames]
